@@ -18,3 +18,4 @@ class Cls:
 
     def imeth(self, t=0):
       return ('imeth', self.q, t)
+
